@@ -219,7 +219,12 @@ def r18d(ctx, rep, rule="R18d"):
             for v, tg in arms.items():
                 others = {x for x in arms.values() if x != tg} | {other}
                 calls, _ = arm_effects(c, tg, stop=others, limit=14)
-                if any(x.endswith("fmt::format") for x in calls) and not any(x.endswith("ToString>::to_string") or x.endswith("::to_string") for x in calls):
+                # the arm must escape unconditionally: a guard on the arm (`'\\' if .. =>`) falls through to the pass-through arms
+                full = c.reach_from(tg)
+                passes = any(b2 in full and ((callee(t2) or "").endswith("ToString>::to_string") or (callee(t2) or "").endswith("::to_string"))
+                             for b2, t2 in c.calls())
+                if any(x.endswith("fmt::format") for x in calls) and not any(x.endswith("ToString>::to_string") or x.endswith("::to_string") for x in calls) \
+                        and not passes:
                     own.add(v)
     for i in sorted(intro):
         key = "%s|introducer|%s" % (rule, "U+%04X" % i)
